@@ -662,14 +662,33 @@ def json_unmarshal(it, st, args, fname):
 # function.  The model has no passing of time: a deadline is never reached inside one explored step, so
 # Done() becomes ready only through cancel().  (Stated in the evidence as an assumption.)
 
-def _new_ctx(it, st, parent):
+def _ctx_deadline(st, c):
+    """deadline of a modelled context in nanoseconds of waiting time (None: no deadline)"""
+    if c is None or not isinstance(c, Iface) or c.v is None:
+        return None
+    h = st.heap[c.v.obj]
+    return h[3] if len(h) > 3 else None
+
+
+def _new_ctx(it, st, parent, deadline=None):
     ch = it.new_obj(st, ('CH', 0, (), False), ('CH', 'struct{}'))
-    oid = it.new_obj(st, ('CTX', ch, False), ('OPAQUE',))
-    it.ctx.assumptions.add('context deadlines are never reached within an explored step (no passing of time): Done() fires only on cancel()')
+    pd = _ctx_deadline(st, parent)
+    if pd is not None and (deadline is None or pd < deadline):
+        deadline = pd
+    oid = it.new_obj(st, ('CTX', ch, False, deadline, ''), ('OPAQUE',))
+    it.ctx.assumptions.add('time passes only while a blocking select has no ready case: it then advances to the earliest deadline among the contexts selected on and that context expires; otherwise Done() fires only on cancel()')
     return Iface('$ctx', Ptr(oid)), FuncVal(f'$ctxcancel:{oid}')
 
 
 @I.reg('context.WithTimeout')
+def ctx_with_timeout(it, st, args, fname):
+    d = args[1]
+    if is_sym(d):
+        raise Unsupported('context.WithTimeout of a symbolic duration')
+    c, cancel = _new_ctx(it, st, args[0], st.heap.get(('WAITED',), 0) + tosigned(d, 64))
+    return ret(st, (c, cancel))
+
+
 @I.reg('context.WithDeadline')
 @I.reg('context.WithCancel')
 def ctx_with(it, st, args, fname):
@@ -680,12 +699,32 @@ def ctx_with(it, st, args, fname):
 @I.regp('$ctxcancel:')
 def ctx_cancel(it, st, args, fname):
     oid = int(fname.split(':', 1)[1])
-    _, ch, cancelled = st.heap[oid]
+    h = st.heap[oid]
+    ch, cancelled = h[1], h[2]
     if not cancelled:
-        st.heap[oid] = ('CTX', ch, True)
+        st.heap[oid] = ('CTX', ch, True, h[3] if len(h) > 3 else None, 'context canceled')
         _, cp, items, closed = st.heap[ch]
         st.heap[ch] = ('CH', cp, items, True)
     return ret(st)
+
+
+def ctx_expire_earliest(st, chan_objs):
+    """a blocking select found nothing ready: among the given channel objects find the Done channel of the
+    context with the earliest deadline, let the waiting time advance to it and expire that context.
+    Returns the channel object that became ready, or None."""
+    best = None
+    for oid, h in list(st.heap.items()):
+        if isinstance(h, tuple) and len(h) > 3 and isinstance(h[0], str) and h[0] == 'CTX' and not h[2] and h[3] is not None and h[1] in chan_objs:
+            if best is None or h[3] < best[1][3]:
+                best = (oid, h)
+    if best is None:
+        return None
+    oid, h = best
+    st.heap[('WAITED',)] = max(st.heap.get(('WAITED',), 0), h[3])
+    st.heap[oid] = ('CTX', h[1], True, h[3], 'context deadline exceeded')
+    _, cp, items, closed = st.heap[h[1]]
+    st.heap[h[1]] = ('CH', cp, items, True)
+    return h[1]
 
 
 def ctx_done(it, st, args):
@@ -699,8 +738,19 @@ def ctx_err(it, st, args):
     c = args[0]
     if c is None or not st.heap[c.obj][2]:
         return ret(st, None)
-    oid = it.new_obj(st, ('FMTERR', Str(list(b'context canceled')), ()), ('OPAQUE',))
+    h = st.heap[c.obj]
+    txt = (h[4] if len(h) > 4 and h[4] else 'context canceled').encode()
+    oid = it.new_obj(st, ('FMTERR', Str(list(txt)), ()), ('OPAQUE',))
     return ret(st, Iface('$fmterr', Ptr(oid)))
+
+
+def ctx_deadline(it, st, args):
+    c = args[0]
+    h = st.heap[c.obj] if c is not None else None
+    d = h[3] if h is not None and len(h) > 3 else None
+    if d is None:
+        return ret(st, (mk_time_ns(0), False))
+    return ret(st, (mk_time_ns(1700000000 * 1000000000 + d), True))
 
 
 def ctx_value(it, st, args):
@@ -709,6 +759,7 @@ def ctx_value(it, st, args):
 
 I.synth[('$ctx', 'Done')] = ctx_done
 I.synth[('$ctx', 'Err')] = ctx_err
+I.synth[('$ctx', 'Deadline')] = ctx_deadline
 I.synth[('$ctx', 'Value')] = ctx_value
 
 
